@@ -33,9 +33,10 @@ class C02(UtfCheck):
     partial = ''
 
     def variants(self):
+        # the two extra builds only run the mode-omitting overloads: -O0 -g0 keeps their compile time small
         return {'': [],
-                'av': ['-DST_DEFAULT_VALIDATION=ST::assume_valid'],
-                'si': ['-DST_DEFAULT_VALIDATION=ST::substitute_invalid']}
+                'av': ['-O0', '-g0', '-DST_DEFAULT_VALIDATION=ST::assume_valid'],
+                'si': ['-O0', '-g0', '-DST_DEFAULT_VALIDATION=ST::substitute_invalid']}
 
     def known(self, case, impl, spec):
         p = parse(case)
@@ -66,7 +67,7 @@ class C02(UtfCheck):
                         continue
                     for lo in range(0, 65536, 16384):
                         yield enum_case('bytes2', fn, route, mode, sub, lo, lo + 16384)
-                    if quick and (fn == 'utf8_to_latin_1' and sub == '0' and mode == 'av'):
+                    if quick and (fn in ('utf8_to_wchar', 'utf8_to_latin_1') and not (sub == '0' and mode == 'cv')):
                         continue
                     for lo in range(0, 65536, 16384):
                         yield enum_case('cb4', fn, route, mode, sub, lo, lo + 16384)
@@ -85,8 +86,12 @@ class C02(UtfCheck):
         # ---- directed malformed inputs through every reading function, every mode; routes rotate
         for kind in ('8', '16', '32'):
             inputs = malformed_inputs(kind, rng, tier)
-            fns = FN_BY_SRC[kind]
+            allf = FN_BY_SRC[kind]
             for i, u in enumerate(inputs):
+                # quick tier: every input through 2 (UTF-32: 3) of the reading functions, rotating, every mode;
+                # the exhaustive short-string enumerations above go through all of them
+                k = len(allf)
+                fns = allf if not quick else [allf[(i + j * 2) % k] for j in range(2 if k == 5 else 3)]
                 for fn in fns:
                     rts = routes_for(fn)
                     route = 'ptr' if (i % 3) else rts[(i // 3) % len(rts)]
